@@ -359,7 +359,14 @@ def _logu(rng, lo, hi, size):
     return 10.0 ** rng.uniform(math.log10(lo), math.log10(hi), size)
 
 
-def draw_points(seed: int, regime: str, n_channels: int, n_poles: int, batch: int = 64,
+def seed_entropy(seed, *extra: int) -> list[int]:
+    """Entropy for ``numpy.random.default_rng``: `seed` is an int or a list of ints (Hypothesis draws six
+    bytes: its large-integer distribution is strongly biased towards small values and repeats itself)."""
+    base = [int(x) for x in seed] if isinstance(seed, (list, tuple)) else [int(seed)]
+    return [*base, *[int(x) for x in extra]]
+
+
+def draw_points(seed, regime: str, n_channels: int, n_poles: int, batch: int = 64,
                 *, beta: bool = False, s_below: bool = False) -> dict:
     """A batch of real parameter points.
 
@@ -369,7 +376,7 @@ def draw_points(seed: int, regime: str, n_channels: int, n_poles: int, batch: in
     one pole below the highest threshold in every point; in a quarter of the points that
     pole has zero residue in the channels it cannot decay to).
     """
-    rng = np.random.default_rng(seed)
+    rng = np.random.default_rng(seed_entropy(seed))
     b, nc, npo = batch, n_channels, n_poles
     wide = regime == "wide"
     m_a = _logu(rng, 1e-3 if wide else 0.05, 5.0 if wide else 1.5, (b, nc))
